@@ -28,6 +28,8 @@ Nothing in this module imports cutplace.
 import datetime
 import math
 
+import os
+
 import xlsxwriter
 
 # Number formats under which a cell stays a plain number (currency, percent, scientific, fraction, ...).
@@ -133,6 +135,9 @@ def write_workbook(path, sheets, options=None):
         # rows are flushed one by one and strings are stored inline (t="inlineStr") instead of in the shared
         # string table
         book_options["constant_memory"] = True
+        # XlsxWriter keeps one row-data temp file per worksheet in this mode and leaves it behind: put it next to
+        # the target (a per-case scratch directory the caller removes) instead of the system temp directory
+        book_options["tmpdir"] = os.path.dirname(os.path.abspath(path))
     else:
         book_options["in_memory"] = True
     if options.get("date_1904"):
